@@ -688,6 +688,9 @@ pub struct MemReader {
 	pub default_stream: bool,
 	pub lookups: Arc<AtomicU64>,
 	pub streams: Arc<AtomicU64>,
+	/// every lookup and every stream request is pending this many times before it answers (a
+	/// source that is slower than its neighbours, e.g. a remote one)
+	pub yields: u8,
 }
 
 impl MemReader {
@@ -704,7 +707,12 @@ impl MemReader {
 			default_stream: false,
 			lookups: Arc::new(AtomicU64::new(0)),
 			streams: Arc::new(AtomicU64::new(0)),
+			yields: 0,
 		}
+	}
+	pub fn with_yields(mut self, n: u8) -> MemReader {
+		self.yields = n;
+		self
 	}
 	pub fn with_default_stream(mut self) -> MemReader {
 		self.default_stream = true;
@@ -733,11 +741,19 @@ impl TilesReaderTrait for MemReader {
 		&self.tilejson
 	}
 	async fn get_tile_data(&self, coord: &TileCoord3) -> Result<Option<Blob>> {
-		self.lookups.fetch_add(1, Ordering::Relaxed);
+		// (every fourth lookup only: checks perform millions of them)
+		if self.lookups.fetch_add(1, Ordering::Relaxed) % 4 == 0 {
+			for _ in 0..self.yields {
+				tokio::task::yield_now().await;
+			}
+		}
 		Ok(self.tiles.get(&Coord::from_vt(coord)).map(|b| Blob::from(b.clone())))
 	}
 	async fn get_bbox_tile_stream(&self, bbox: TileBBox) -> TileStream {
 		self.streams.fetch_add(1, Ordering::Relaxed);
+		for _ in 0..self.yields {
+			tokio::task::yield_now().await;
+		}
 		if self.default_stream {
 			// the trait's default implementation, spelled out (default methods cannot be called
 			// once overridden)
